@@ -573,7 +573,17 @@ class _Engine:
 
     @staticmethod
     def components():
-        return seams.report()
+        rep = seams.report()
+        rep["isolation"] = (
+            "each world of a pair (fit + transform workload) runs in its own child forked from the same "
+            "parent state and returns plain data: nothing process-global is shared between the two worlds "
+            "or between one run and the next"
+        )
+        rep["real_mechanisms_also_run"] = [
+            "reference fits under real PYTHONHASHSEED values in fresh interpreters (builtin set, n_jobs=1)",
+            "thorough tier: real multiprocessing.Pool (n_jobs=2) cross-check",
+        ]
+        return rep
 
     @staticmethod
     def extra_coverage(prop, seed, tier, total):
